@@ -770,6 +770,8 @@ class Report:
                 self.violations.append(
                     Violation(r.name, f'obligation {r.name} is refuted by {r.backend}', dict(model=r.model or {}, meta=r.meta), False, key=r.name)
                 )
+            if r.status == 'unknown' and r.kind == 'vc' and match_known(known, Violation(r.name, '', {}, False, key=r.name)) is not None:
+                continue  # an obligation of a recorded finding is not required to hold on this tree: undecided is no news
             if r.status == 'unknown' and not (r.kind == 'cover' and _PATHCOVER.search(r.name)):
                 # (an undecided cover of ONE path is as harmless as an uncovered one: see below; a unit whose paths
                 # are all uncovered or undecided is still reported as vacuous)
@@ -852,6 +854,9 @@ class Report:
         for v in self.violations:
             if match_known(known, v) is not None:
                 known_obls.add(v.obligation)
+        for r in vc:  # (also when the solver left it undecided this time: it is not required to hold on this tree)
+            if r.status != 'proved' and match_known(known, Violation(r.name, '', {}, False, key=r.name)) is not None:
+                known_obls.add(r.name)
         required = [r for r in vc if r.name not in known_obls]
         by_backend: Dict[str, int] = {}
         for r in required:
